@@ -65,7 +65,7 @@ func runC13(c *Ctx) {
 	}
 	isRetCert := func(v ssa.Value) bool {
 		fa := loadedField(v)
-		return fa != nil && fieldName(fa) == "Response.Certificate" && fa.X == ret
+		return fa != nil && fieldName(fa) == "Response.Certificate" && deparam(fa.X) == ret
 	}
 	respSigBy := func(who VP) VP {
 		return func(v ssa.Value) bool {
@@ -73,7 +73,7 @@ func runC13(c *Ctx) {
 				return false
 			}
 			cl := callOf(v)
-			return cl.Call.Args[0] == ret && who(cl.Call.Args[1])
+			return deparam(cl.Call.Args[0]) == ret && who(cl.Call.Args[1])
 		}
 	}
 	issuerSignsEmbedded := func(v ssa.Value) bool {
@@ -107,16 +107,8 @@ func runC13(c *Ctx) {
 		Cut: AnyF(embedded, Cmp(LenOf(LoadOfField("basicResponse.Certificates")), "le eq", ConstInt(0)))})
 
 	// stores to the Response
-	stores := map[string][]FieldWrite{}
-	for f, ws := range w.FieldWrites() {
-		if strings.HasPrefix(f, "Response.") {
-			for _, wr := range ws {
-				if wr.Fn == fn && wr.Base == ret {
-					stores[strings.TrimPrefix(f, "Response.")] = append(stores[strings.TrimPrefix(f, "Response.")], wr)
-				}
-			}
-		}
-	}
+	// (made by the function itself or by a helper it hands the Response to)
+	stores := w.fieldWritesOn(fn, ret, "Response")
 	provExact := func(field, want string) {
 		ws := stores[field]
 		if len(ws) != 1 {
@@ -124,7 +116,7 @@ func runC13(c *Ctx) {
 			return
 		}
 		c.Sites++
-		got := Expr(ws[0].Val)
+		got := ws[0].ValExpr
 		c.Check(got == want, "R-PROV", fnPRFC, "Response."+field+" = "+want, w.InstrPos(ws[0].In), got)
 	}
 	provExact("TBSResponseData", "basicResp.TBSResponseData.Raw")
